@@ -611,6 +611,29 @@ func (b *Biscuit) generateWorld(symbols *datalog.SymbolTable) (*datalog.World, e
 	return world, nil
 }
 
+// symbolsUpTo returns the part of the token's symbol table that block number `block`
+// (0 = authority) may refer to: the base symbols, its own table and those of earlier blocks.
+func (b *Biscuit) symbolsUpTo(block int) *datalog.SymbolTable {
+	declared := b.authority.symbols.Len()
+	for _, blk := range b.blocks {
+		declared += blk.symbols.Len()
+	}
+	// symbols present before the authority block was added (custom base table)
+	n := b.symbols.Len() - declared
+	if n < 0 {
+		n = 0
+	}
+	n += b.authority.symbols.Len()
+	for i := 0; i < block && i < len(b.blocks); i++ {
+		n += b.blocks[i].symbols.Len()
+	}
+	if n > b.symbols.Len() {
+		n = b.symbols.Len()
+	}
+	prefix := (*b.symbols)[:n:n]
+	return &prefix
+}
+
 func (b *Biscuit) RevocationIds() [][]byte {
 	result := make([][]byte, 0, len(b.blocks)+1)
 	result = append(result, b.container.Authority.Signature)
